@@ -5,7 +5,9 @@ from harness import res_common as rc
 
 def run(ck):
     rc.run_property(ck, "mask_C02", rc.oracle_C02, fixed=rc.FIXED_HISTORIES)
-    ck.run_fixed({"inject_across_short_lived_contexts": "C02:resource-of-a-dead-context"})
+    ck.run_fixed({"inject_across_short_lived_contexts": "C02:resource-of-a-dead-context",
+                  "lookup_paths_agree_inside_a_component": "C02:lookup-paths-disagree",
+                  "leaving_a_context_with_an_explicit_parent": "C02:added-elsewhere"})
 
 
 def replay(ck, obj):
